@@ -525,7 +525,7 @@ fn main() {
         "C13" => {
             let mut rep = Report::new("C13", tier, "model_checking", "netk");
             rep.rule = "explicit-state BFS over lifecycle actions of both applications (connect / cancel / accept / write / shutdown / drop / listener drop / re-bind) interleaved with wire actions on the real stack; from every state the fair suffix closes everything, checks the socket/binding/connection tables through the cfg-guarded count hook and then re-uses every port and 4-tuple".into();
-            let (wall, cap) = tier.pick((Duration::from_secs(50), 4_000_000), (Duration::from_secs(900), 40_000_000));
+            let (wall, cap) = tier.pick((Duration::from_secs(50), 4_000_000), (Duration::from_secs(300), 40_000_000));
             let mut all_feats: Vec<String> = vec![];
             for c in c13_configs(tier) {
                 let mut b = BfsConfig::new(&c.name);
